@@ -327,7 +327,7 @@ pub fn run_case(c: &Case, out: &mut String, st: &mut Stats, snapshots: bool) -> 
                     was_rec = true;
                     let pos = if stop { None } else { pos_of(rdr) };
                     ev.push_str(&format!(
-                        "{{\"ev\":\"call\",\"op\":\"seek\",\"slot\":0,\"n\":0,\"to\":[{},{}],\"res\":{},\"pos\":{},\"io\":{},\"grow\":{},\"cap\":{},\"alloc\":-1}}\n",
+                        "{{\"ev\":\"call\",\"op\":\"seek\",\"slot\":0,\"n\":0,\"to\":[{},{}],\"res\":{},\"pos\":{},\"io\":{},\"grow\":{},\"cap\":{},\"alloc\":-1",
                         line,
                         byte,
                         res,
@@ -336,6 +336,10 @@ pub fn run_case(c: &Case, out: &mut String, st: &mut Stats, snapshots: bool) -> 
                         grow_json(&glog),
                         if stop { -1 } else { snap_cap(rdr) }
                     ));
+                    if snapshots && !stop {
+                        ev.push_str(&format!(",\"snap\":{}", snap_json(rdr)));
+                    }
+                    ev.push_str("}\n");
                 }
                 Op::Pol(p) => {
                     let old = reader.take().unwrap();
